@@ -46,7 +46,15 @@ def corpus_items(prop):
     out = []
     for f in H.known_findings(prop):
         if f.get("kind") == "fixed" and "witness" in f:
-            decls = [to_tuple(d) for d in f["witness"]["decls"]]
+            w = f["witness"]
+            if "rich" in w:
+                import facto_rich as fr
+                st = [to_tuple(s) for s in w["rich"]]
+                el = fr.elaborate(st)
+                out.append(engine.Item("fx" + f["id"], el.flat, text=fr.text(st), entities=el.entities, mems=el.mems,
+                                       note="corpus: repaired " + f["id"]))
+                continue
+            decls = [to_tuple(d) for d in w["decls"]]
             out.append(engine.Item("fx" + f["id"], decls, note="corpus: repaired " + f["id"]))
     return out
 
